@@ -762,8 +762,8 @@ def _is_f2(clause: str, case: Dict[str, Any]) -> bool:
         return False
     if not any(spans_origin(arc) for _, arc in case["areas"]):
         return False
-    if _some_span_inflated(case):
-        return True       # robust form of the class; the sweep model below pins it down further
+    if clause == "region-span-exact" and _some_span_inflated(case):
+        return True
     raises, sections, region_masks, arcs = _model_regions(case, exact=False)
     if clause == "creation-succeeds":
         return raises
